@@ -1,22 +1,31 @@
 ---------------------------- MODULE MCDiscovery ----------------------------
-(* Model-checking instance of Discovery: behaviours with a history for the replay harness. *)
+(* Discovery with a history variable: the behaviours TLC generates here are replayed, step by step, on the  *)
+(* real Discovery / limitedSet / backoffConnector by harness/drivers/discovery.                             *)
 EXTENDS Discovery, Json
 
-CONSTANT MaxLen      \* length of a printed behaviour
+CONSTANT MaxLen      \* length of a behaviour (run TLC with -simulate file=...: the last state of each trace file holds the behaviour)
 
 VARIABLE hist        \* sequence of [a: action record, o: observable state after it, stable: BOOLEAN]
 
-\* what the harness can observe of the real objects
+\* What the harness can observe of the real objects (wk: the goroutines that exist, by peer and position),
+\* and the verdict of the model on the properties that do NOT hold for the code as it is: the harness
+\* evaluates the same predicates on the real state -- a failure the model does not share is a violation,
+\* a failure the model shares is the modelled (known) defect.
 Obs == [set   |-> set,
         view  |-> view,
+        net   |-> net,
         prot  |-> prot,
         hb    |-> {p \in Peers : rem[p] > 0},
         rec   |-> {p \in Peers : rem[p] # NoRec},
+        conn  |-> {p \in Peers : conn[p]},
+        evq   |-> evq,
         wk    |-> {<<wk[w].p, wk[w].pc>> : w \in {x \in Workers : wk[x].pc # "free"}},
         dl    |-> dl,
         cl    |-> cl,
-        loop  |-> loop,
-        size  |-> Cardinality(set)]
+        busy  |-> loop # "idle",
+        quiet |-> Quiescent,
+        ok    |-> [hardLimit |-> HardLimit, inSetConnected |-> InSetConnected, inOrder |-> ReportedInOrder,
+                   view |-> ViewConsistent, stranded |-> NoStrandedWaiter, prot |-> ProtectedInSetOrPending]]
 
 InitB == Init /\ hist = <<>>
 NextB == /\ Next
@@ -24,6 +33,4 @@ NextB == /\ Next
          /\ hist' = Append(hist, [a |-> act', o |-> Obs', stable |-> Stable'])
 SpecB == InitB /\ [][NextB]_<<vars, hist>>
 
-\* printed once per behaviour: at the length bound or where nothing more can happen
-EmitBeh == (Len(hist) = MaxLen \/ ~ENABLED Next) => PrintT(<<"BEH", ToJson(hist)>>)
 =============================================================================
